@@ -121,6 +121,10 @@ def option_sweep(rebound, gen, rng):
         for c, res in itertools.product(sorted(S.COLLISIONS), ("merge", "hardsphere", "halt")):
             if c == "none":
                 continue
+            if integ == "trace" and "tree" in c:
+                # library defect outside C05 (heap overflow in reb_simulation_add_local when the tree re-inserts a particle
+                # during TRACE's BS step; /tmp/c13_trace_linetree_repro.py, reported): would kill the harness process
+                continue
             emit(integ, "collision=%s/%s" % (c, res), collision=c, collision_resolve=res, box=[20.0, 1, 1, 1] if "tree" in c else None)
         for b in sorted(S.BOUNDARIES):
             if b == "none":
